@@ -24,6 +24,39 @@ CHECKS = {
  "C08": ("invariant monitor on every returned *Match + reference rune/byte index map", "3 C08",
          "Structural invariants of all captures of all groups and ByteRange exactness are asserted for every match reachable through string chain, rune chain, StartingAt and ReplaceFunc evaluators, on inputs with multi-byte runes and invalid bytes.",
          "Index map oracle is harness code."),
+ "C06": ("differential monitor: every compat.Matcher method (RE2 option) vs Go's regexp package on generated common-syntax patterns", "3 C06",
+         "22 methods x n in {-1,0,1,2,3} are compared by deep equality (nil-ness, byte offsets, -1 pairs) on ASCII, multi-byte, invalid-UTF-8 and empty inputs; two documented divergences are known findings with explained-by classes.",
+         "Go's regexp is the oracle; patterns Go rejects are skipped; text-returning forms compared on valid UTF-8 only."),
+ "C09": ("reference fold over the match sequence + $-grammar expander vs Replace / ReplaceFunc / Split", "3 C09",
+         "Replace is recomputed as a fold over the FindStringMatchStartingAt/FindNextMatch sequence with an independent expander of the documented $-grammar; ReplaceFunc, the $& identity, argument errors, cache sizes and Split (piece by piece, re-joined) are asserted in both directions.",
+         "The expander (internal/ref/replace.go) is harness code written from the documentation; the match sequence comes from the find API."),
+ "C10": ("panic / fatal / error-class / bounded-progress monitors over structure-aware mutation in child processes; thorough adds coverage-guided go test -fuzz; a share under -race (checkptr)", "3 C10",
+         "Every exported operation is called for tens of thousands of mutated patterns and hostile inputs; recovered panics, process deaths (attributed to the case logged before execution), unexpected error classes and reproducible timing-bound misses are violations.",
+         "Pattern size <= 12 KB; timing bounds are suspects re-run alone 3 times; a clean run is not a proof of absence."),
+ "C11": ("race detector + result comparison over concurrent mixed workloads with GOMAXPROCS and hook-point perturbation", "3 C11",
+         "G in {2,4,8,32} goroutines issue the C12 operation alphabet on shared and private Regexps under -race with yield/sleep injected at the verifPoint hooks; every result is compared with the sequential one and any race report block is a violation; evidence lists overlapping operation pairs and hook-point 4-grams actually observed.",
+         "Only scheduler-produced interleavings and executed paths are observed."),
+ "C12": ("history monitor: every step of exhaustive pairs / triples / random histories vs the same call on a fresh Regexp", "3 C12",
+         "All ordered pairs (thorough: all triples) over a 44-operation alphabet plus random 50-step histories run with the collector off (pooled runners and buffers really reused) and on; each step must equal the fresh-Regexp result.",
+         "Operation alphabet is finite; fresh results must be stable (checked up front)."),
+ "C13": ("runtime assertion over limit sweeps: result equals unlimited result or ErrBacktrackingStackLimit, allocation events <= L (verif hook), monotonicity, usability after error", "3 C13",
+         "Deep-backtracking patterns are run under ~100 limits each (fixed set, doubling boundaries, bisection threshold +-2); allocation sizes come from the verifTrackAlloc hook.",
+         "Timeouts are inconclusive; monotonicity is both used (bisection) and cross-checked (sorted sweep)."),
+ "C14": ("timed-history monitor: latency window, error class, clock-goroutine presence, with overshoot calibration and 3x isolated re-execution of suspects", "3 C14",
+         "Histories of timed catastrophic / quick matches, idle gaps beyond the clock slop, StopTimeoutClock and concurrent deadlines with a 1 ms clock period; verdicts need 3/3 reproduction with low measured scheduler overshoot.",
+         "Wall-clock by nature; may come out inconclusive on a loaded machine; ms-level accuracy not claimed."),
+ "C17": ("documented numbering rule computed on the AST vs all name/number lookups, Match.Groups, back-references and replacement references", "3 C17",
+         "Patterns whose groups each capture a unique text are checked under default / MaintainCaptureOrder / ECMAScript / RE2 / ExplicitCapture: lists, four lookups, Groups order, GroupByName/Number, $n/${name}, \\k<n>/\\k<name> all designate the same group.",
+         "Numbering rule is harness code; one combination (MaintainCaptureOrder + explicit numbers) is a known finding."),
+ "C18": ("metamorphic monitor: compile option vs leading (?O) vs wrapping (?O:...) for all 32 option subsets, plus (?-O) scoping", "3 C18",
+         "Three compilations of the same text must have equal group maps and equal find results on every input; 32 subsets x ~4000 patterns per quick run.",
+         "No external oracle needed (relation between executions)."),
+ "C19": ("inverse-function and anchored-literal monitor with near-miss battery", "3 C19",
+         "Unescape(Escape(s)) == s, Escape(s) compiles under literal-preserving option sets, matches s and rejects up to 60 near-misses; thorough covers every code point alone and followed by a hex digit.",
+         "Valid UTF-8 strings only."),
+ "C20": ("metamorphic monitor: case flips of input letters and of pattern letters / class members / range endpoints under IgnoreCase", "3 C20",
+         "Match position and captures must be invariant under flips of simple-pair letters, through rune and string entry points, incl. prefix-search shapes, negated classes, subtractions and back-references.",
+         "Only letters with a simple upper/lower fold orbit are flipped."),
  "C15": ("executable specification run leftwards vs engine with RightToLeft", "3 C15",
          "Same as C01 with the reference matcher started in leftward direction.",
          "As C01."),
@@ -58,7 +91,7 @@ for cid in ALL:
             "quick_cmd": "./run.sh %s quick" % cid,
             "thorough_cmd": "./run.sh %s thorough" % cid,
             "evidence_file": "/verif/evidence/%s.json" % cid,
-            "replay_cmd_template": "./run.sh %s quick -replay {path}" % cid,
+            **({"replay_cmd_template": "./run.sh %s quick -replay {path}" % cid} if cid not in ("C11", "C14") else {}),
             "engine": "vcheck",
             "level_claimed": {"category": "exploration", "text": text, "design_ref": "DESIGN.md section " + ref},
             "level_note": note,
